@@ -277,8 +277,8 @@ def adjust_offsets_w_sustain(
             note["sound_off"] = note["note_off"]
         return
 
-    # sort, just in case
-    pedal = pedal[np.argsort(pedal[:, 0]), :]
+    # sort, just in case (stable: simultaneous events keep their order)
+    pedal = pedal[np.argsort(pedal[:, 0], kind="stable"), :]
 
     # reduce the pedal info to just the times where there is a change in pedal state
     pedal = np.vstack(
